@@ -68,7 +68,8 @@ def _cases(shard):
         start = draw(st.integers(0, n - 1))
         base = [dom[(start + j) % n] for j in range(draw(st.integers(0, 16)))]
         op = lambda *a: st.tuples(*[st.just(x) if isinstance(x, str) else x for x in a]).map(list)
-        B = st.one_of(st.none(), st.sampled_from(dom))
+        B = st.one_of(st.none(), st.sampled_from(dom), st.sampled_from(dom),
+                      st.builds(lambda i, l: {'edge': i, 'last': l}, st.integers(0, 12), st.booleans()))
         if is_map:
             rw = [op('set', K, V), op('set', K, V), op('del', K), op('setdefault', K, V), op('pop', K),
                   op('popd', K, V), op('popitem'), op('get', K), op('getitem', K), op('in', K),
@@ -160,6 +161,31 @@ def _bad_val(fam):
     return None
 
 
+def _edge(lv, sk, tok):
+    """a bound: None, a key token, or {'edge': i, 'last': bool} = first / last key of the i-th leaf"""
+    if tok is None:
+        return None
+    if isinstance(tok, dict):
+        if not sk:
+            return lv._kw(F.dk(lv.fam, F.default_token(lv.fam, lv.ktype)))
+        if lv.is_tree:
+            ghosts = [o for o in lv.nodes() if o._p_state == -1]
+            lvs = [lf.keys for lf in walker.walk(lv.t, lv.is_map, check=False).leaves if lf.keys]
+            for o in ghosts:            # looking at the structure must not change what is evicted
+                if o._p_state == 0:
+                    o._p_deactivate()
+        else:
+            lvs = [sk]
+        lf = lvs[tok['edge'] % len(lvs)]
+        k = lf[-1] if tok.get('last') else lf[0]
+        # hand the container the model's own key object (HookKey in hook mode)
+        for m in sk:
+            if m is k or m == k:
+                return m
+        return k
+    return lv._kw(F.dk(lv.fam, tok))
+
+
 def _special(lv, op, ctx, i):
     """C05-specific operations; returns (got, want, mode) or None"""
     t, m, fam = lv.t, lv.model, lv.fam
@@ -167,8 +193,8 @@ def _special(lv, op, ctx, i):
     sk = lv.sorted_keys()
     if name in ('range', 'view'):
         _, meth, mn, mx, exmin, exmax = op[:6]
-        kmn = lv._kw(F.dk(fam, mn)) if mn is not None else None
-        kmx = lv._kw(F.dk(fam, mx)) if mx is not None else None
+        kmn = _edge(lv, sk, mn)
+        kmx = _edge(lv, sk, mx)
 
         def ok(k):
             s = F.sortkey(k)
@@ -209,7 +235,7 @@ def _special(lv, op, ctx, i):
         return call, ('ok', want), 'eq'
     if name in ('minKey', 'maxKey'):
         b = op[1]
-        kb = lv._kw(F.dk(fam, b)) if b is not None else None
+        kb = _edge(lv, sk, b)
         if name == 'minKey':
             c = [k for k in sk if kb is None or F.sortkey(k) >= F.sortkey(kb)]
             want = ('ok', c[0]) if c else ('exc', ValueError)
